@@ -86,7 +86,7 @@ impl HtxFile {
         let mut file = match params.htx_buf_size {
             FileBufSizeParam::Size(val) => {
                 let idx_buf_chunk_size = CHUNK_SIZE;
-                let idx_buf_num_chunks = val / idx_buf_chunk_size;
+                let idx_buf_num_chunks = (val / idx_buf_chunk_size).max(2);
                 VarFile::with_capacity(
                     piece_mgr,
                     "htx",
